@@ -37,7 +37,11 @@ PROPERTIES = {
                 "bytes, embedding in an array and a struct through encoding/json, json.Valid on outputs and inputs.",
         "note": _NOTE + " Documents embedded through encoding/json whose inner text is not by itself a JSON value are outside "
                         "the model; they are counted as out_of_model (with the number of disagreements) in the evidence, "
-                        "neither as agreement nor as violation.",
+                        "neither as agreement nor as violation. That MarshalJSON/UnmarshalJSON are reachable by encoding/json "
+                        "for every way a Frame can sit in a Go value (by value, pointer, struct field, slice/map element, "
+                        "interface) is a fact about Go method sets (value vs pointer receiver), not expressible in the "
+                        "Gallina model; it is observed on every run by the 'C-' lines (9 container kinds: document must carry "
+                        "exactly the JSON() text, decoding back must give the identical frame).",
         "technique": "Coq proof about a Gallina model + differential correspondence of model and code",
         "design_ref": "5.16",
     },
@@ -52,7 +56,9 @@ RULES = {
            "strconv.ParseUint/Atoi/Itoa, hex.Decode/Encode, fmt %03X/%08X, strings.Split/ToUpper. non-trivial = all; "
            "distinct by line hash",
     "C16": "J/D/M/E: frames as C15 (JSON(), json.Valid, MarshalJSON==JSON(), UnmarshalJSON of the output, json.Marshal inside "
-           "[]Frame, decoding inside an array and a struct); D: fixed edge documents (top-level non-objects, duplicates, "
+           "[]Frame, decoding inside an array and a struct); C: every 4th frame (thorough: every frame) marshalled and decoded "
+           "back through encoding/json as a Frame by value, *Frame, struct{Frame;*Frame} by value and by pointer, []Frame, "
+           "[]*Frame, map[string]Frame, interface{} holding a Frame, []interface{} holding a Frame and a []Frame; D: fixed edge documents (top-level non-objects, duplicates, "
            "case-folded / escaped keys, escapes and non-ASCII in data, data of 8/9/255/256/257 bytes, nesting 9999..10001, "
            "trailing garbage, BOM), all 9x11x10x7x7 member-value combinations (absent/null/right/wrong type) with shuffled "
            "order and random whitespace, number / string literal tables in every member position, random member documents, "
@@ -63,7 +69,7 @@ RULES = {
 def harness_args(pid, tier, seed):
     if pid == "C15":
         return ["c15", seed] + ([1, 40, 20000] if tier == "quick" else [6, 4000, 400000])
-    return ["c16", seed] + ([1, 40, 10000] if tier == "quick" else [4, 2000, 200000])
+    return ["c16", seed] + ([1, 40, 10000, 4] if tier == "quick" else [4, 2000, 200000, 1])
 
 
 def replay_args(replay):
@@ -71,7 +77,7 @@ def replay_args(replay):
     import json
     obs = json.load(open(replay)).get("replay", {}).get("observation", "")
     parts = obs.split()
-    if not parts or parts[0] not in ("S", "U", "J", "M", "D", "E"):
+    if not parts or parts[0] not in ("S", "U", "J", "M", "D", "E", "C"):
         return None
     return ["one", parts[0]] + parts[1:3]
 
